@@ -518,9 +518,10 @@ Qed.
 
 Lemma effective_imports_incl : forall pk i, In i (effective_imports pk) -> In i (imports pk).
 Proof.
-  intros pk i H. unfold effective_imports, named_imports, root_imports, dedup_imports in H. apply in_app_or in H. destruct H as [H|H].
+  intros pk i H. unfold effective_imports, named_imports, root_imports, root_imports_before_4a102aa, dedup_imports in H.
+  apply in_app_or in H. destruct H as [H|H].
   - apply dedup_imports_incl_gen in H. destruct H as [[]|H]. apply filter_In in H. tauto.
-  - apply filter_In in H. tauto.
+  - apply dedup_imports_incl_gen in H. destruct H as [[]|H]. apply filter_In in H. tauto.
 Qed.
 
 Lemma flat_map_perm {A B} (f : A -> list B) l l' :
@@ -576,7 +577,7 @@ Lemma mage_check_none : forall pk,
   (forall i, In i (ordered_imports pk) -> package_check (import_funcs i) = None) /\
   check_dupes true (local_funcs pk) (ordered_imports pk) (alias_map (aliases pk)) = None.
 Proof.
-  intros. unfold mage_check, or_else.
+  intros. unfold mage_check, mage_check_with, or_else.
   destruct (package_check (local_funcs pk)); [split; [discriminate | intros [? _]; discriminate]|].
   destruct (first_err _ (ordered_imports pk)) eqn:E.
   - split; [discriminate|]. intros [_ [H _]]. rewrite (proj2 (first_err_none _ _) H) in E. discriminate.
@@ -649,7 +650,7 @@ Definition names_colliders (pk : pkg) (e : err) : Prop :=
 
 Lemma names_the_colliders : forall pk e, mage_check true pk = Some e -> names_colliders pk e.
 Proof.
-  intros pk e H. unfold mage_check, or_else in H.
+  intros pk e H. unfold mage_check, mage_check_with, or_else in H.
   destruct (package_check (local_funcs pk)) eqn:E1.
   - inversion H; subst. destruct (package_check_some _ _ E1) as [gs [-> [Hne Hg]]]. simpl. split; auto.
     intros g Hin. destruct (Hg g Hin) as [k [Z L]]. exists (local_funcs pk), k. auto.
@@ -747,7 +748,8 @@ Qed.
 
 (* one package mage:import'ed several times (commit 5f65f03): under two aliases, as a root import, and the pair
    ("e/tools", "ci") written twice - accepted, every name runs the package's definition; the same package as
-   a bare-tag import twice - the code rejects (two entries of rootImports), naming the one definition twice *)
+   a bare-tag import twice - one import since commit 4a102aa (before it: two entries of rootImports, rejected
+   naming the one definition twice) *)
 Definition ex_tools (a : string) : import := {| i_alias := a; i_path := "e/tools"; i_tgts := [T "" "Build"] |}.
 Definition ex_multi : pkg :=
   {| locals := [T "" "Hello"]; imports := [ex_tools "dev"; ex_tools "ci"; ex_tools ""; ex_tools "ci"];
@@ -758,8 +760,10 @@ Lemma nonvacuous_repeated_imports :
   mage_accepts ex_multi = true /\ runnable_names ex_multi = ["Hello"; "dev:Build"; "ci:Build"; "Build"; "x"] /\
   map (fun w => option_map fid (resolve ex_multi w)) ["ci:build"; "DEV:build"; "build"; "X"] =
     [Some "e/tools.Build"; Some "e/tools.Build"; Some "e/tools.Build"; Some "e/tools.Build"] /\
-  mage_check true ex_root2 = Some (EMulti [("build", [{| f_alias := ""; f_path := "e/tools"; f_recv := ""; f_name := "Build" |};
-                                                      {| f_alias := ""; f_path := "e/tools"; f_recv := ""; f_name := "Build" |}])]).
+  mage_accepts ex_root2 = true /\ runnable_names ex_root2 = ["Build"] /\
+  mage_check_before_4a102aa ex_root2 =
+    Some (EMulti [("build", [{| f_alias := ""; f_path := "e/tools"; f_recv := ""; f_name := "Build" |};
+                             {| f_alias := ""; f_path := "e/tools"; f_recv := ""; f_name := "Build" |}])]).
 Proof. vm_compute. repeat split; reflexivity. Qed.
 
 (* before commit 1f96f80 the alias "say" was accepted next to the target Say and shadowed it *)
